@@ -60,9 +60,9 @@ def legs(c, pid, tier):
     thorough = tier == "thorough"
     n = 4 if (thorough and pid == "C10") else 3
     inv = "INVARIANT DoneOK PlaceholderNeverRead SlotsFilled\nPROPERTY Terminates\n" if pid == "C10" else "INVARIANT DoneOK\n"
-    r = vlib.tlc_design("MC_Retain", cfg(wd, "MC_Retain_%s.cfg" % pid, "CONSTANTS\n N = %d\n MaxKids = 2\n WithOutside = %s\nSPECIFICATION Spec\n%sCHECK_DEADLOCK FALSE\n" % (n, "TRUE" if n == 3 else "FALSE", inv)), wd, workers=12 if n == 4 else 8, heap="24g" if n == 4 else "8g", timeout=3 * 3600)
+    r = vlib.tlc_design("MC_Retain", cfg(wd, "MC_Retain_%s.cfg" % pid, "CONSTANTS\n N = %d\n MaxKids = 2\n WithOutside = %s\n KindShifts = {0}\nSPECIFICATION Spec\n%sCHECK_DEADLOCK FALSE\n" % (n, "TRUE" if n == 3 else "FALSE", inv)), wd, workers=12 if n == 4 else 8, heap="24g" if n == 4 else "8g", timeout=3 * 3600)
     c.add("states", r.distinct); c.add("transitions", r.generated)
-    g = vlib.tlc("MC_Retain", cfg(wd, "Gen_Retain_%s.cfg" % pid, "CONSTANTS\n N = 3\n MaxKids = %d\n WithOutside = TRUE\nSPECIFICATION Spec\nINVARIANT Emit\nCHECK_DEADLOCK FALSE\n" % (3 if thorough else 2)), wd, workers=8, heap="8g")
+    g = vlib.tlc("MC_Retain", cfg(wd, "Gen_Retain_%s.cfg" % pid, "CONSTANTS\n N = 3\n MaxKids = %d\n WithOutside = TRUE\n KindShifts = {0, 1, 2, 3}\nSPECIFICATION Spec\nINVARIANT Emit\nCHECK_DEADLOCK FALSE\n" % (3 if thorough else 2)), wd, workers=8, heap="8g")
     if not g.ok: raise vlib.ToolError("retain case emission failed: " + "\n".join(g.errors[:3]))
     cf = os.path.join(wd, "Gen_Retain_%s.cfg.out" % pid)
     ncases = sum(1 for l in open(cf) if l.startswith('<<"REPLAY"'))
